@@ -1,6 +1,6 @@
 // Execution-queue driver (C16): drives the REAL lane based queue and real children, one request per line.
 //
-//   queue <lanes> <fifo|prio> <cancel_us|-1> <settle_us> <job>...
+//   queue <lanes> <fifo|prio|serial> <cancel_us|-1> <settle_us> <job>...      (serial: createSerialQueue, lanes ignored)
 //       job = id:prio(h|n):ordhex:dur_us:parent:delay_us:proc(0|1)
 //         parent >= 0  : added by job <parent> (from its lane) delay_us after that job started
 //         parent = -1-t: added by client thread t, delay_us after the previous add of that thread
@@ -90,6 +90,7 @@ struct Scenario : public ExecutionQueueDelegate {
   std::vector<int> procStatus;
   std::mutex mu;
   std::string err;
+  bool serial = false;      // the serial queue never calls queueJobStarted/Finished: the job body logs its own end
 
   explicit Scenario(size_t n) : count(n), started(n), finished(n), cbs(n), procStatus(n, -99) {
     for (size_t i = 0; i < n; i++) { count[i] = 0; started[i] = 0; finished[i] = 0; cbs[i] = 0; }
@@ -138,6 +139,7 @@ void JobFn::operator()(QueueJobContext* ctx) {
     Scenario* s = sc; int i = id;
     sc->queue->executeProcess(ctx, cmd, {}, attr, {[s, i](ProcessResult r) { s->cbs[i]++; s->procStatus[i] = (int)r.status; }});
   }
+  if (sc->serial) { sc->started[id]++; sc->finished[id]++; logev('F', lane, id); }
 }
 
 static std::string runQueue(const SV& a) {
@@ -165,7 +167,8 @@ static std::string runQueue(const SV& a) {
     std::stable_sort(kv.second.begin(), kv.second.end(), [&](int x, int y) { return sc.jobs[x].delay < sc.jobs[y].delay; });
   { std::lock_guard<std::mutex> g(gMu); gEv.clear(); gSeq = 0; }
 
-  sc.queue = createLaneBasedExecutionQueue(sc, lanes, alg, getDefaultQualityOfService(), nullptr);
+  if (a[2] == "serial") { sc.serial = true; lanes = 1; sc.queue = createSerialQueue(sc, nullptr).release(); }
+  else sc.queue = createLaneBasedExecutionQueue(sc, lanes, alg, getDefaultQualityOfService(), nullptr);
   std::vector<std::thread> adders;
   for (auto& kv : byThread) {
     std::vector<int> ids = kv.second;
